@@ -87,6 +87,10 @@ pub fn run(ctx: &Ctx) -> i32 {
     let a2 = ["/", ".", "a", "é", " ", "~"];
     let l2 = ctx.tier.pick(6, 8);
     sweep(ctx, &a2, l2, &evals, &nontrivial);
+    // separators and dots around 3- and 4-byte characters (byte offsets and character indexes drift apart by 2 and 3)
+    let a3 = ["/", ".", "€", "😀"];
+    let l3 = ctx.tier.pick(8, 10);
+    sweep(ctx, &a3, l3, &evals, &nontrivial);
     // labelled sampling supplement: longer random strings over the wide alphabet (never decides alone)
     let mut rng = Rng(ctx.seed ^ 0xC14);
     let wide = ["/", ".", "a", "b", "é", " ", "~", "..", "//", "€"];
@@ -109,7 +113,7 @@ pub fn run(ctx: &Ctx) -> i32 {
         ("evaluations", J::i(evals.load(Ordering::Relaxed))),
         ("distinct_nontrivial", J::i(nontrivial.load(Ordering::Relaxed))),
         ("rule", J::s(format!(
-            "every string over {{'/','.','a','b'}} up to length {} and over {{'/','.','a','é',' ','~'}} up to length {} (odometer enumeration, all distinct); non-trivial = cleaning changes the string. Each input: clean == go_clean, non-empty, absoluteness kept, idempotent, PathExt form identical, no panic.",
+            "every string over {{'/','.','a','b'}} up to length {} and over {{'/','.','a','é',' ','~'}} up to length {}, and over {{'/','.','€','😀'}} up to length 8 (quick) / 10 (thorough) (odometer enumeration, all distinct); non-trivial = cleaning changes the string. Each input: clean == go_clean, non-empty, absoluteness kept, idempotent, PathExt form identical, no panic.",
             l1, l2
         ))),
         ("samples", J::arr(sample_idx.iter().map(|&i| {
